@@ -7,6 +7,8 @@
 //!   c16_ser <dump>     -> hex of RawExtraField::from(ExtraField(fields)).0   (`err` if the dump is not a value)
 //!   c16_subfield <hex> -> `ok <dump>` | `err`   (strict deserialize::<SubField>)
 //!   c16_rawparse <hex> -> `<n> <dump>` of RawExtraField::try_parse (the fields, whichever the flag)
+//!   c16_okpre <hex>    -> `<ok|err> pre=<dump>`: the flag and the fields before the first failure (what the property constrains
+//!                         for arbitrary bytes); compared with the model AND with the independent grammar reader Spec.Extra.parse
 use crate::common::*;
 use curve25519_dalek::constants::ED25519_BASEPOINT_POINT as G;
 use curve25519_dalek::scalar::Scalar;
@@ -96,6 +98,7 @@ pub fn exec(t: &[&str]) -> Option<String> {
         ["c16_parse", h] => Some(parse_line(&unhex(h))),
         ["c16_ser", d] => Some(ser_line(d)),
         ["c16_subfield", h] => Some(subfield_line(&unhex(h))),
+        ["c16_okpre", h] => { let b = unhex(h); let ok = ExtraField::try_parse(&RawExtraField(b.clone())).is_ok(); Some(format!("{} pre={}", if ok { "ok" } else { "err" }, dump(&pre_fields(&b)))) }
         ["c16_rawparse", h] => { let f = RawExtraField(unhex(h)).try_parse(); Some(format!("{} {}", f.0.len(), dump(&f.0))) }
         // C02 for the sub-field codec: `<bytes> <reported len> <partial: consumed:eq|ne | err> <strict: eq|ne|err>` of the field
         // described by <dump>, partial parse with <suffix> appended
@@ -322,6 +325,10 @@ fn parse_case(o: &mut Out, b: &[u8], fam: &str) -> String {
         o.direct(a == c, "c16: SubField decode through a one-byte-per-call reader == decode from a slice", format!("c16_parse {}", hex(b)), format!("{:?}", c.map(|(g, n)| (dump_field(&g), n))), format!("{:?}", a.map(|(g, n)| (dump_field(&g), n))));
     }
     if b.len() <= 4096 { prefix_check(o, b); }
+    // relation C for parsing: flag and pre against the independent grammar reader (every 5th case, and every small fixed one)
+    if o.ops.len() % 5 == 0 || fam == "len2" || fam.starts_with("wf.mm") || fam.contains("special-key") || fam.contains("long") || fam.contains("64k") || fam == "huge-len" {
+        o.op(format!("c16_okpre {}", hex(b)), !b.is_empty()); o.stat(&format!("okpre.{}", if isok { "ok" } else { "err" }));
+    }
     let nt = !b.is_empty() && (!f.0.is_empty() || b.len() >= 2);
     if nt { o.nontrivial.insert(format!("c16_parse {}", hex(b))); }
     o.stat(&format!("parse.{}.{}", fam, if err { "err" } else { "ok" }));
@@ -576,6 +583,6 @@ pub fn run(o: &mut Out, tier: &str, seed: u64) {
         if rng.chance(1, 8) { o.op(format!("c16_subfield {}", hex(&b)), true); o.stat("subfield.random"); }
         if rng.chance(1, 12) { o.op(format!("c16_rawparse {}", hex(&b)), !b.is_empty()); o.stat("rawparse.random"); }
     }
-    o.notes.push("nontrivial rule: c16_ser, c16_subfield and c16_rawparse (non-empty input) always; c16_parse when the input is non-empty and (a sub-field was decoded or the input has >= 2 bytes)".into());
+    o.notes.push("nontrivial rule: c16_ser, c16_subfield, c16_rawparse and c16_okpre (non-empty input) always; c16_parse when the input is non-empty and (a sub-field was decoded or the input has >= 2 bytes)".into());
     o.notes.push("pre=<dump>: fields returned by the library's SubField decoder on a cursor before its first failure (computed by the harness with the library's decoder); for `err` results only the flag, `pre` and the accessors are constrained by the property, the salvaged list is modelled and compared as well".into());
 }
